@@ -210,6 +210,9 @@ func (p *proxy) Exec(op string) string {
 	sig := "process_death"
 	if strings.Contains(why, "hung") {
 		sig = "no_reply"
+		// one request that never replies is the finding; whatever makes it hang may make hundreds of
+		// the remaining requests hang too, 40 s each: nothing further is run
+		Hung = true
 	}
 	p.flag(sig, fmt.Sprintf("%s; reproduced alone=%v; %s", why, confirmed, first))
 	return "DEAD"
